@@ -264,7 +264,36 @@ func runC15(c *core.Ctx) {
 		if len(uses) != 1 {
 			return md5Use{}, fmt.Sprintf("%d MD5 computations found, expected 1", len(uses))
 		}
-		return uses[0], ""
+		u := uses[0]
+		u.Layout = fn
+		// h.Write(layout(p0, p1, p2)): the input is laid out by an unexported helper of the package that receives exactly the
+		// function's parameters in order - it is judged in the helper's own terms (its parameter i is this function's)
+		if len(u.In) == 1 && u.In[0].V != nil {
+			if call, isCall := strip(u.In[0].V).(*ssa.Call); isCall {
+				if h := call.Call.StaticCallee(); h != nil && h.Pkg == fn.Pkg && h.Object() != nil && !h.Object().Exported() && len(call.Call.Args) == len(fn.Params) && len(h.Params) == len(fn.Params) {
+					same := true
+					for i, a := range call.Call.Args {
+						if strip(a) != ssa.Value(fn.Params[i]) {
+							same = false
+						}
+					}
+					var ret *ssa.Return
+					nret := 0
+					for _, b := range h.Blocks {
+						if r, isR := b.Instrs[len(b.Instrs)-1].(*ssa.Return); isR {
+							ret = r
+							nret++
+						}
+					}
+					if same && nret == 1 && len(ret.Results) == 1 {
+						if seq, ok := concatSeq(ret.Results[0], 0); ok {
+							u.In, u.Layout = seq, h
+						}
+					}
+				}
+			}
+		}
+		return u, ""
 	}
 	isParam := func(fn *ssa.Function, a catom, i int) bool {
 		return a.V != nil && i < len(fn.Params) && strip(a.V) == ssa.Value(fn.Params[i])
@@ -305,7 +334,7 @@ func runC15(c *core.Ctx) {
 		u, why := digestOf(fn)
 		ok := why == ""
 		if ok {
-			ok = len(u.In) == 4 && isParam(fn, u.In[0], 0) && u.In[1].S == "0x9" && isParam(fn, u.In[2], 1) && isParam(fn, u.In[3], 2)
+			ok = len(u.In) == 4 && isParam(u.Layout, u.In[0], 0) && u.In[1].S == "0x9" && isParam(u.Layout, u.In[2], 1) && isParam(u.Layout, u.In[3], 2)
 			why = "the digest input is `" + atomsString(u.In) + "`; CMPP defines account ++ 9 zero octets ++ secret ++ timestamp text"
 			if ok {
 				for _, rs := range returns(fn) {
@@ -323,7 +352,7 @@ func runC15(c *core.Ctx) {
 		u, why := digestOf(fn)
 		ok := why == ""
 		if ok {
-			ok = len(u.In) == 3 && isParam(fn, u.In[0], 0) && isParam(fn, u.In[1], 1) && isParam(fn, u.In[2], 2)
+			ok = len(u.In) == 3 && isParam(u.Layout, u.In[0], 0) && isParam(u.Layout, u.In[1], 1) && isParam(u.Layout, u.In[2], 2)
 			why = "the digest input is `" + atomsString(u.In) + "`; CMPP defines status ++ AuthenticatorSource ++ secret"
 			if ok {
 				for _, rs := range returns(fn) {
@@ -408,7 +437,7 @@ func runC15(c *core.Ctx) {
 		u, why := digestOf(fn)
 		ok := why == ""
 		if ok {
-			ok = len(u.In) == 4 && isParam(fn, u.In[0], 0) && u.In[1].S == "0x7" && isParam(fn, u.In[2], 1) && u.In[3].V != nil
+			ok = len(u.In) == 4 && isParam(u.Layout, u.In[0], 0) && u.In[1].S == "0x7" && isParam(u.Layout, u.In[2], 1) && u.In[3].V != nil
 			why = "the digest input is `" + atomsString(u.In) + "`; SMGP defines ClientID ++ 7 zero octets ++ secret ++ ten-digit timestamp"
 			if ok {
 				for _, rs := range returns(fn) {
@@ -448,7 +477,7 @@ func runC15(c *core.Ctx) {
 				}
 			}
 			if ok {
-				o, w := tenDigit(u.In[3].V, fn.Params[2], 0)
+				o, w := tenDigit(u.In[3].V, u.Layout.Params[2], 0)
 				c.Decide(o, "C15-TS", "smgp/smgp30.genAuthenticatorClient#text", c.Prog.Pos(fn.Pos()), "the text hashed is the ten-digit rendering of the timestamp argument", "the timestamp text hashed is not the ten-digit rendering of the timestamp argument: "+w)
 			}
 		}
